@@ -257,6 +257,255 @@ Proof.
     [|destruct (N.ltb_spec a 65536) as [A3|A3]]];
   (destruct (N.ltb_spec b 128) as [B1|B1]; [|destruct (N.ltb_spec b 2048) as [B2|B2];
     [|destruct (N.ltb_spec b 65536) as [B3|B3]]]);
-  cbn [first_diff_lt]; try lia.
+  cbn [first_diff_lt]; lia.
 Qed.
+
+Lemma utf8_encode_char_nonempty : forall c, exists b l, utf8_encode_char c = b :: l.
+Proof.
+  intros c. unfold utf8_encode_char.
+  destruct (c <? 128); [|destruct (c <? 2048); [|destruct (c <? 65536)]]; eexists; eexists; reflexivity.
+Qed.
+
+(* the order of two encodings is not disturbed by whatever follows them *)
+Lemma utf8_encode_char_order_app : forall a b s t, scalar a -> scalar b -> a < b ->
+  list_cmp N.compare (utf8_encode_char a ++ s) (utf8_encode_char b ++ t) = Lt.
+Proof. intros a b s t Ha Hb Hab. apply first_diff_lt_cmp. apply utf8_first_diff; assumption. Qed.
+
+(* B1 *)
+Theorem utf8_encode_char_order : forall a b, is_scalar a = true -> is_scalar b = true -> a < b ->
+  list_cmp N.compare (utf8_encode_char a) (utf8_encode_char b) = Lt.
+Proof.
+  intros a b Ha Hb Hab.
+  rewrite <- (app_nil_r (utf8_encode_char a)), <- (app_nil_r (utf8_encode_char b)).
+  apply utf8_encode_char_order_app; assumption.
+Qed.
+
+(* B2: prefix-free (and injective): if two encodings, each followed by anything, give the same bytes,
+   the code points are the same; in particular no encoding is a proper prefix of another one *)
+Theorem utf8_prefix_free : forall a b l l', scalar a -> scalar b ->
+  utf8_encode_char a ++ l = utf8_encode_char b ++ l' -> a = b.
+Proof.
+  intros a b l l' Ha Hb Heq.
+  destruct (N.lt_total a b) as [Hab|[Hab|Hab]]; [|exact Hab|]; exfalso.
+  - pose proof (utf8_encode_char_order_app a b l l' Ha Hb Hab) as H.
+    rewrite Heq, list_cmp_refl in H. discriminate H.
+  - pose proof (utf8_encode_char_order_app b a l' l Hb Ha Hab) as H.
+    rewrite Heq, list_cmp_refl in H. discriminate H.
+Qed.
+
+Corollary utf8_no_proper_prefix : forall a b l, scalar a -> scalar b ->
+  utf8_encode_char a ++ l = utf8_encode_char b -> a = b /\ l = [].
+Proof.
+  intros a b l Ha Hb Heq. rewrite <- (app_nil_r (utf8_encode_char b)) in Heq.
+  pose proof (utf8_prefix_free a b l [] Ha Hb Heq) as Hab. subst b.
+  split; [reflexivity|]. apply app_inv_head in Heq. exact Heq.
+Qed.
+
+Corollary utf8_encode_char_inj : forall a b, scalar a -> scalar b ->
+  utf8_encode_char a = utf8_encode_char b -> a = b.
+Proof.
+  intros a b Ha Hb Heq. apply (utf8_prefix_free a b [] [] Ha Hb). rewrite Heq. reflexivity.
+Qed.
+
+(* B3 *)
+Theorem utf8_order : forall s t, Forall scalar s -> Forall scalar t ->
+  list_cmp N.compare (utf8_encode s) (utf8_encode t) = list_cmp N.compare s t.
+Proof.
+  unfold utf8_encode.
+  induction s as [|a s IH]; intros [|b t] Hs Ht; cbn [flat_map list_cmp].
+  - reflexivity.
+  - destruct (utf8_encode_char_nonempty b) as [x [l ->]]. reflexivity.
+  - destruct (utf8_encode_char_nonempty a) as [x [l ->]]. reflexivity.
+  - inversion Hs as [|a' s' Ha Hs']; subst a' s'. inversion Ht as [|b' t' Hb Ht']; subst b' t'.
+    destruct (N.compare_spec a b) as [Hab|Hab|Hab].
+    + subst b. rewrite list_cmp_app_same. apply IH; assumption.
+    + apply utf8_encode_char_order_app; assumption.
+    + apply first_diff_gt_cmp. apply utf8_first_diff; assumption.
+Qed.
+
+(* the same with the model's names: comparing the bytes is str_cmp, hence the byte order is a
+   total order on strings that agrees with code point order; equal bytes iff equal strings *)
+Corollary utf8_order_str_cmp : forall s t, Forall scalar s -> Forall scalar t ->
+  list_cmp N.compare (utf8_encode s) (utf8_encode t) = str_cmp s t.
+Proof. exact utf8_order. Qed.
 End Utf8Order.
+
+Print Assumptions Utf8Order.utf8_encode_char_order.
+Print Assumptions Utf8Order.utf8_prefix_free.
+Print Assumptions Utf8Order.utf8_no_proper_prefix.
+Print Assumptions Utf8Order.utf8_order.
+
+(* ================================================================================================ *)
+(* PART C — --unique on rows with selections                                                        *)
+(* ================================================================================================ *)
+Module UniqueSelected.
+
+(* a selected value: absent, or present and canonical *)
+Definition ocanonical (o : option json) : Prop :=
+  match o with Some v => canonical v | None => True end.
+Definition osame_order (a b : option json) : Prop :=
+  match a, b with Some x, Some y => same_order x y | _, _ => True end.
+
+Definition canonical_key (k : ckey) : Prop :=
+  match k with
+  | KValue v => canonical v
+  | KResults l => Forall ocanonical l
+  end.
+
+(* same constructor, same length, corresponding present values list their members in the same order *)
+Definition same_shape (k k' : ckey) : Prop :=
+  match k, k' with
+  | KValue a, KValue b => same_order a b
+  | KResults x, KResults y => length x = length y /\ pairwise osame_order x y
+  | _, _ => False
+  end.
+
+(* the weaker relation that suffices: wherever both keys have a present value, the member orders agree
+   (keys of different constructors or lengths are unequal for ckey_eqb and for = alike) *)
+Definition compat_order (k k' : ckey) : Prop :=
+  match k, k' with
+  | KValue a, KValue b => same_order a b
+  | KResults x, KResults y => pairwise osame_order x y
+  | _, _ => True
+  end.
+
+Lemma same_shape_compat k k' : same_shape k k' -> compat_order k k'.
+Proof. destruct k as [a|x], k' as [b|y]; cbn [same_shape compat_order]; try tauto. Qed.
+
+Lemma osame_order_refl o : osame_order o o.
+Proof. destruct o as [v|]; [apply same_order_refl|exact I]. Qed.
+
+Lemma same_shape_refl k : same_shape k k.
+Proof.
+  destruct k as [a|x]; cbn [same_shape]; [apply same_order_refl|]. split; [reflexivity|].
+  induction x as [|o x IH]; [exact I|]. cbn [pairwise]. split; [apply osame_order_refl|exact IH].
+Qed.
+
+Lemma ojeqb_refl o : ocanonical o -> ojeqb o o = true.
+Proof. destruct o as [v|]; cbn [ocanonical ojeqb]; [apply jeqb_refl|reflexivity]. Qed.
+
+Lemma ojeqb_canonical_eq a b :
+  ocanonical a -> ocanonical b -> osame_order a b -> ojeqb a b = true -> a = b.
+Proof.
+  destruct a as [x|], b as [y|]; cbn [ocanonical osame_order ojeqb]; intros Ca Cb So H;
+    try discriminate H; [|reflexivity].
+  f_equal. apply jeqb_canonical_eq; assumption.
+Qed.
+
+Lemma results_eqb_refl : forall l, Forall ocanonical l -> list_eqb ojeqb l l = true.
+Proof.
+  induction l as [|o l IH]; intros Hc; [reflexivity|].
+  inversion Hc as [|o' l' Ho Hl]; subst o' l'. cbn [list_eqb].
+  rewrite (ojeqb_refl o Ho), (IH Hl). reflexivity.
+Qed.
+
+Lemma results_eqb_eq : forall x y, Forall ocanonical x -> Forall ocanonical y ->
+  pairwise osame_order x y -> list_eqb ojeqb x y = true -> x = y.
+Proof.
+  induction x as [|a x IH]; intros [|b y] Cx Cy Hp H; cbn [list_eqb] in H;
+    try discriminate H; [reflexivity|].
+  inversion Cx as [|a' x' Ca Cx']; subst a' x'. inversion Cy as [|b' y' Cb Cy']; subst b' y'.
+  cbn [pairwise] in Hp. destruct Hp as [Sab Hp].
+  apply Bool.andb_true_iff in H as [H1 H2].
+  rewrite (ojeqb_canonical_eq a b Ca Cb Sab H1), (IH y Cx' Cy' Hp H2). reflexivity.
+Qed.
+
+(* the key comparison is reflexive on canonical keys *)
+Theorem ckey_eqb_refl : forall k, canonical_key k -> ckey_eqb k k = true.
+Proof.
+  intros [v|l]; cbn [canonical_key ckey_eqb]; intros Hc; [apply jeqb_refl|apply results_eqb_refl]; exact Hc.
+Qed.
+
+Theorem ckey_eqb_compat_iff : forall k k', canonical_key k -> canonical_key k' -> compat_order k k' ->
+  (ckey_eqb k k' = true <-> k = k').
+Proof.
+  intros k k' Ck Ck' Hso. split; [|intros <-; apply ckey_eqb_refl; exact Ck].
+  destruct k as [a|x], k' as [b|y]; cbn [canonical_key compat_order ckey_eqb] in *; intros H;
+    try discriminate H; f_equal.
+  - apply jeqb_canonical_eq; assumption.
+  - apply results_eqb_eq; assumption.
+Qed.
+
+(* on canonical keys of the same shape the key comparison is Leibniz equality *)
+Theorem ckey_eqb_canonical_iff : forall k k', canonical_key k -> canonical_key k' -> same_shape k k' ->
+  (ckey_eqb k k' = true <-> k = k').
+Proof. intros k k' Ck Ck' Hs. apply ckey_eqb_compat_iff; [exact Ck|exact Ck'|apply same_shape_compat; exact Hs]. Qed.
+
+(* keys that differ in constructor or length are unequal both ways, whatever their contents *)
+Lemma ckey_eqb_length : forall x y, ckey_eqb (KResults x) (KResults y) = true -> length x = length y.
+Proof.
+  cbn [ckey_eqb]. induction x as [|a x IH]; intros [|b y] H; cbn [list_eqb] in H; try discriminate H; [reflexivity|].
+  apply Bool.andb_true_iff in H as [_ H]. cbn [length]. f_equal. apply IH. exact H.
+Qed.
+
+(* what the key of a row is *)
+Lemma key_no_selection {E} (c : ctx E) : results c = [] -> key c = KValue (input c).
+Proof. intros H. unfold key. rewrite H. reflexivity. Qed.
+Lemma key_selection {E} (c : ctx E) : results c <> [] -> key c = KResults (map snd (results c)).
+Proof. intros H. unfold key, to_list. destruct (results c); [contradiction|reflexivity]. Qed.
+
+(* rows with or without selections; canonical keys; pairwise compatible member order *)
+Theorem dedup_canonical_rows : forall E (cs : list (ctx E)),
+  (forall c, In c cs -> canonical_key (key c)) ->
+  (forall c c', In c cs -> In c' cs -> compat_order (key c) (key c')) ->
+  (forall c c', In c cs -> In c' cs -> (ckey_eqb (key c) (key c') = true <-> key c = key c')) /\
+  dedup_from E [] cs = dedup_all E [] cs /\
+  ForallOrdPairs (fun a b => key a <> key b) (dedup_from E [] cs) /\
+  (forall c, In c cs -> exists c', In c' (dedup_from E [] cs) /\ key c = key c').
+Proof.
+  intros E cs Hc Hso.
+  assert (Hiff : forall c c', In c cs -> In c' cs ->
+                   (ckey_eqb (key c) (key c') = true <-> key c = key c')).
+  { intros c c' Hi Hi'. apply ckey_eqb_compat_iff; [apply Hc; exact Hi|apply Hc; exact Hi'|apply Hso; assumption]. }
+  set (P := fun k : ckey => exists c, In c cs /\ k = key c).
+  assert (Hok : keys_ok E P cs).
+  { apply Forall_forall. intros c Hi. exists c. split; [exact Hi|reflexivity]. }
+  assert (Hrefl : forall a, P a -> ckey_eqb a a = true).
+  { intros a [c [Hi ->]]. apply ckey_eqb_refl. apply Hc. exact Hi. }
+  assert (Hin : forall c, In c (dedup_from E [] cs) -> In c cs) by (intros c; apply dedup_In).
+  split; [exact Hiff|]. split; [|split].
+  - apply (dedup_first_occurrences E P); [exact Hrefl| |exact Hok].
+    intros a b c [ca [Ha ->]] [cb [Hb ->]] [cc [Hcc ->]] H1 H2.
+    apply Hiff in H1; [|assumption|assumption]. apply Hiff in H2; [|assumption|assumption].
+    apply Hiff; [assumption|assumption|]. rewrite H1. exact H2.
+  - pose proof (dedup_later_differs E cs []) as Hl.
+    induction Hl as [|a l Ha Hl IH]; [constructor|].
+    constructor.
+    + apply Forall_forall. intros b Hb Heq.
+      pose proof (proj1 (Forall_forall _ _) Ha b Hb) as Hba. cbn beta in Hba.
+      assert (Ht : ckey_eqb (key b) (key a) = true).
+      { apply Hiff; [apply Hin; right; exact Hb|apply Hin; left; reflexivity|symmetry; exact Heq]. }
+      rewrite Ht in Hba. discriminate Hba.
+    + apply IH. intros c Hi. apply Hin. right. exact Hi.
+  - intros c Hi. destruct (dedup_complete E P Hrefl cs [] c Hok Hi) as [H|[c' [Hc' H]]]; [discriminate H|].
+    exists c'. split; [exact Hc'|]. apply Hiff; [exact Hi|apply Hin; exact Hc'|exact H].
+Qed.
+
+(* the same, stated on the rows themselves, when every row carries selections: the selected values are
+   canonical where present, and any two rows agree on member order where both have a value *)
+Corollary dedup_canonical_selected : forall E (cs : list (ctx E)),
+  (forall c, In c cs -> results c <> [] /\ Forall ocanonical (map snd (results c))) ->
+  (forall c c', In c cs -> In c' cs -> pairwise osame_order (map snd (results c)) (map snd (results c'))) ->
+  dedup_from E [] cs = dedup_all E [] cs /\
+  ForallOrdPairs (fun a b => map snd (results a) <> map snd (results b)) (dedup_from E [] cs).
+Proof.
+  intros E cs Hc Hso.
+  assert (Hkey : forall c, In c cs -> key c = KResults (map snd (results c))).
+  { intros c Hi. apply key_selection. apply Hc. exact Hi. }
+  destruct (dedup_canonical_rows E cs) as [_ [H1 [H2 _]]].
+  - intros c Hi. rewrite (Hkey c Hi). cbn [canonical_key]. apply Hc. exact Hi.
+  - intros c c' Hi Hi'. rewrite (Hkey c Hi), (Hkey c' Hi'). cbn [compat_order]. apply Hso; assumption.
+  - split; [exact H1|].
+    assert (Hin : forall c, In c (dedup_from E [] cs) -> In c cs) by (intros c; apply dedup_In).
+    induction H2 as [|a l Ha Hl IH]; [constructor|]. constructor.
+    + apply Forall_forall. intros b Hb Heq. apply (proj1 (Forall_forall _ _) Ha b Hb).
+      rewrite (Hkey a), (Hkey b); [rewrite Heq; reflexivity|apply Hin; right; exact Hb|apply Hin; left; reflexivity].
+    + apply IH. intros c Hi. apply Hin. right. exact Hi.
+Qed.
+End UniqueSelected.
+
+Print Assumptions UniqueSelected.ckey_eqb_refl.
+Print Assumptions UniqueSelected.ckey_eqb_compat_iff.
+Print Assumptions UniqueSelected.ckey_eqb_canonical_iff.
+Print Assumptions UniqueSelected.dedup_canonical_rows.
+Print Assumptions UniqueSelected.dedup_canonical_selected.
